@@ -4,7 +4,7 @@ Proof:  lean/ScenicModel/Props/C17*.lean — theorems about the executable model
         lean/ScenicModel/Model/Visibility.lean, instantiated on the configuration regenerated from
         /repo by translate/visibility.py (Gen/Visibility.lean; side conditions re-decided every run).
 Tie:    (T) translate/visibility.py (symbolic reading of the point branch, flags of the object branch,
-            the viewer wrappers, the operator / requirement plumbing);
+            the viewer wrappers, the visible regions' diameters, the 2D compatibility mode, the operator / requirement plumbing);
         (C) Lean driver vs the real `canSee` for vector / Point / OrientedPoint targets and sets of box
             occluders (exact rationals, decided only off an explicit relative margin), and vs
             `visibleRegion.containsPoint`;
@@ -61,11 +61,27 @@ THEOREMS = [
     "Scenic.Vis.azimuth_window_iff",
     "Scenic.Vis.altitude_window_iff",
     "Scenic.Vis.inViewVolume_iff_angles",
+    "Scenic.Vis.grid_ray_in_windows",
+    # visible regions and the 2D compatibility mode
+    "Scenic.Vis.inWindows_full",
+    "Scenic.Vis.inViewVolume_full_iff",
+    "Scenic.Vis.point_viewer_sees_iff",
+    "Scenic.Vis.point_region_iff_visible",
+    "Scenic.Vis.halved_point_region_misses_visible_point",
+    "Scenic.Vis.inViewVolume_in_viewRegionBound",
+    "Scenic.Vis.viewRegionBound_full_iff",
+    "Scenic.Vis.Mat3.yaw_isOrtho",
+    "Scenic.Vis.sector2D_iff_inViewVolume",
+    "Scenic.Vis.canSee2D_iff_pointVisible",
     # instantiated on the configuration regenerated from /repo
     "Scenic.C17.object_viewer",
     "Scenic.C17.oriented_viewer",
     "Scenic.C17.point_viewer",
     "Scenic.C17.point_viewer_sees_iff",
+    "Scenic.C17.point_region_iff_visible",
+    "Scenic.C17.inViewVolume_in_viewRegionBound",
+    "Scenic.C17.viewRegionBound_full_iff",
+    "Scenic.C17.canSee2D_iff_pointVisible",
     "Scenic.C17.point_visible_iff_in_view_volume",
     "Scenic.C17.outside_never_visible",
     "Scenic.C17.blocked_never_visible",
@@ -82,8 +98,9 @@ THEOREMS = [
     "Scenic.C17.rotate_first_not_rigid_invariant",
     "Scenic.C17.reference_sees_point_ahead",
 ]
-SIDE = ["Scenic.C17.gen_cfg_reference", "Scenic.C17.gen_objcfg_reference", "Scenic.C17.gen_wrapcfg_reference"]
-LEAN_MODULES = ["ScenicModel.Props.C17", "ScenicModel.Props.C17Angles", "ScenicModel.Props.C17Shadow", "ScenicModel.Props.C17Cert", "ScenicModel.Props.C17Object",
+SIDE = ["Scenic.C17.gen_cfg_reference", "Scenic.C17.gen_objcfg_reference", "Scenic.C17.gen_wrapcfg_reference",
+        "Scenic.C17.gen_cfg2d_reference"]
+LEAN_MODULES = ["ScenicModel.Props.C17", "ScenicModel.Props.C17Angles", "ScenicModel.Props.C17Flat", "ScenicModel.Props.C17Shadow", "ScenicModel.Props.C17Cert", "ScenicModel.Props.C17Object",
                 "ScenicModel.Props.C17Point", "ScenicModel.Props.C17Slab", "ScenicModel.Lemmas.Visibility",
                 "ScenicModel.Model.Visibility", "ScenicModel.Gen.Visibility"]
 
@@ -97,6 +114,21 @@ FINGERPRINTS = {
     "Object.canSee": ("src/scenic/core/object_types.py", "Object.canSee"),
     "Object.visibleRegion": ("src/scenic/core/object_types.py", "Object.visibleRegion"),
     "Point2D.canSee": ("src/scenic/core/object_types.py", "Point2D.canSee"),
+    "Point2D._canSee2D": ("src/scenic/core/object_types.py", "Point2D._canSee2D"),
+    "Point2D.visibleRegion": ("src/scenic/core/object_types.py", "Point2D.visibleRegion"),
+    "OrientedPoint2D.visibleRegion": ("src/scenic/core/object_types.py", "OrientedPoint2D.visibleRegion"),
+    "Object2D.visibleRegion": ("src/scenic/core/object_types.py", "Object2D.visibleRegion"),
+    "SectorRegion.containsPoint": ("src/scenic/core/regions.py", "SectorRegion.containsPoint"),
+    "SectorRegion._makePolygons": ("src/scenic/core/regions.py", "SectorRegion._makePolygons"),
+    "CircularRegion.containsPoint": ("src/scenic/core/regions.py", "CircularRegion.containsPoint"),
+    "geometry.pointIsInCone": ("src/scenic/core/geometry.py", "pointIsInCone"),
+    "geometry.viewAngleToPoint": ("src/scenic/core/geometry.py", "viewAngleToPoint"),
+    "geometry.normalizeAngle": ("src/scenic/core/geometry.py", "normalizeAngle"),
+    "Vector.rotatedBy": ("src/scenic/core/vectors.py", "Vector.rotatedBy"),
+    "Vector.offsetRotated": ("src/scenic/core/vectors.py", "Vector.offsetRotated"),
+    "Vector.distanceTo": ("src/scenic/core/vectors.py", "Vector.distanceTo"),
+    "Object.distanceTo": ("src/scenic/core/object_types.py", "Object.distanceTo"),
+    "utils.cached_method": ("src/scenic/core/utils.py", "cached_method"),
     "Vector.offsetLocally": ("src/scenic/core/vectors.py", "Vector.offsetLocally"),
     "Orientation._inverseRotation": ("src/scenic/core/vectors.py", "Orientation._inverseRotation"),
     "Orientation.getRotation": ("src/scenic/core/vectors.py", "Orientation.getRotation"),
@@ -107,6 +139,14 @@ FINGERPRINTS = {
     "VisibilityRequirement": ("src/scenic/core/requirements.py", "VisibilityRequirement"),
     "NonVisibilityRequirement": ("src/scenic/core/requirements.py", "NonVisibilityRequirement"),
 }
+
+STAGE = {"force_quick": False}
+
+
+def B(ctx, quick, thorough):
+    """tier budget; during the first stage of an escalated run (see run) the quick budget"""
+    return quick if STAGE["force_quick"] else ctx.budget(quick, thorough)
+
 
 EPS = F(1, 2 ** 20)        # relative margin: a case is "decided" only if the model gives the same answer
                            # with distance, half-angle tangents and box extents scaled by (1 ± EPS)
@@ -139,6 +179,16 @@ def half_cs(t):
 def angle_of(t):
     """the float view angle (= 2 * half-angle = 4 * atan t)"""
     return math.tau if t is None else 4 * math.atan(float(t))
+
+
+def heading_of(th):
+    """the float heading 2 atan(th) (None = pi)"""
+    return math.pi if th is None else 2 * math.atan(float(th))
+
+
+def yaw_q(th):
+    """quaternion (w,x,y,z) of the yaw by the heading 2 atan(th)"""
+    return (F(0), F(0), F(0), F(1)) if th is None else (F(1), F(0), F(0), F(th))
 
 
 def qmul(a, b):
@@ -232,7 +282,7 @@ def unjson(o):
     if isinstance(o, str) and (o.lstrip("-").replace("/", "").isdigit()):
         return F(o)
     if isinstance(o, dict):
-        return {k: (v if k in ("kind", "tkind", "program", "what") else unjson(v)) for k, v in o.items()}
+        return {k: (v if k in ("kind", "tkind", "program", "what", "glue", "shape", "mode", "expect") else unjson(v)) for k, v in o.items()}
     if isinstance(o, list):
         return [unjson(x) for x in o]
     return o
@@ -244,11 +294,14 @@ class Real:
         import numpy
         import scenic  # noqa
         from scipy.spatial.transform import Rotation
-        from scenic.core.object_types import Object, OrientedPoint, Point
+        from scenic.core.object_types import Object, Object2D, OrientedPoint, OrientedPoint2D, Point, Point2D
+        from scenic.core.shapes import BoxShape, ConeShape, CylinderShape, SpheroidShape
         from scenic.core.vectors import Orientation, Vector
         self.np, self.Rotation = numpy, Rotation
         self.Object, self.OrientedPoint, self.Point = Object, OrientedPoint, Point
+        self.Object2D, self.OrientedPoint2D, self.Point2D = Object2D, OrientedPoint2D, Point2D
         self.Orientation, self.Vector = Orientation, Vector
+        self.shapes = {"box": BoxShape, "sphere": SpheroidShape, "cyl": CylinderShape, "cone": ConeShape}
 
     def orient(self, q):
         w, x, y, z = (float(c) for c in q)
@@ -264,15 +317,43 @@ class Real:
         if v["kind"] == "P":
             return self.Point._with(**kw)
         angles = (angle_of(v["t0"]), angle_of(v["t1"]))
+        glue = v.get("glue")
+        if glue == "angle":            # the scalar `viewAngle` property: viewAngles defaults to (viewAngle, pi)
+            kw["viewAngle"] = angles[0]
+        elif glue == "over":           # angles beyond (tau, pi) are truncated by OrientedPoint.__init__
+            kw["viewAngles"] = (7.0 if v["t0"] is None else angles[0], 3.5 if v["t1"] == 1 else angles[1])
+        else:
+            kw["viewAngles"] = angles
         if v["kind"] == "O":
-            return self.OrientedPoint._with(parentOrientation=self.orient(v["q"]), viewAngles=angles, **kw)
-        return self.Object._with(parentOrientation=self.orient(v["q"]), viewAngles=angles,
-                                 cameraOffset=self.vec(v["off"]), **kw)
+            return self.OrientedPoint._with(parentOrientation=self.orient(v["q"]), **kw)
+        return self.Object._with(parentOrientation=self.orient(v["q"]), cameraOffset=self.vec(v["off"]), **kw)
 
     def box(self, b, **extra):
+        """an object whose bounding box is b; its shape is a box unless b names another (inscribed) shape"""
+        shape = b.get("shape")
+        if shape and shape != "box":
+            extra["shape"] = self.shapes[shape]()
         return self.Object._with(position=self.vec(b["c"]), parentOrientation=self.orient(b["q"]),
                                  width=float(2 * F(b["h"][0])), length=float(2 * F(b["h"][1])),
                                  height=float(2 * F(b["h"][2])), **extra)
+
+    # 2D compatibility mode: heading = 2 atan(th) (th rational, None = pi)
+    def viewer2d(self, v):
+        kw = dict(position=self.vec(v["p"]), visibleDistance=float(v["D"]))
+        if v["kind"] == "P":
+            return self.Point2D._with(**kw)
+        kw.update(parentOrientation=heading_of(v["th"]), viewAngle=angle_of(v["t0"]))
+        if v["kind"] == "O":
+            return self.OrientedPoint2D._with(**kw)
+        return self.Object2D._with(cameraOffset=self.vec(v["off"]), **kw)
+
+    def box2d(self, b, **extra):
+        return self.Object2D._with(position=self.vec(b["c"]), parentOrientation=heading_of(b["th"]),
+                                   width=float(2 * F(b["h"][0])), length=float(2 * F(b["h"][1])),
+                                   height=float(2 * F(b["h"][2])), **extra)
+
+    def target2d(self, tkind, t):
+        return self.vec(t) if tkind == "vector" else self.Point2D._with(position=self.vec(t))
 
     def target(self, tkind, t):
         if tkind == "vector":
@@ -322,7 +403,14 @@ def gen_viewer(rng, kinds="POB"):
         t1 = F(rng.randint(13, 31), 32)
     if kind == "P":
         t0, t1, q, off = None, F(1), (1, 0, 0, 0), [F(0)] * 3
-    return dict(kind=kind, D=D, p=p, q=q, off=off, t0=t0, t1=t1)
+    v = dict(kind=kind, D=D, p=p, q=q, off=off, t0=t0, t1=t1)
+    # the glue around the core: the scalar `viewAngle` property, truncation of over-wide angles
+    r = rng.random()
+    if kind != "P" and t1 == 1 and r < 0.25:
+        v["glue"] = "angle"
+    elif kind != "P" and (t0 is None or t1 == 1) and r < 0.45:
+        v["glue"] = "over"
+    return v
 
 
 def cam_of(v):
@@ -452,50 +540,64 @@ def point_cases(ctx, R, n):
 
 
 def run_points(ctx, R, use_model):
-    """(C) model (generated configuration) vs real canSee; (S) reference predicate vs real canSee."""
-    cases = point_cases(ctx, R, ctx.budget(1200, 30000))
+    """(C) model (generated configuration) vs real canSee; (S) reference predicate vs real canSee.
+    The real viewer object is shared by the queries of one generated viewer, and every query with occluders is
+    followed by the same query without them (a result cached under too coarse a key shows up as a disagreement)."""
+    cases = point_cases(ctx, R, B(ctx, 1200, 30000))
     lines = []
     for v, tk, t, occ in cases:
-        lines += lean_point_lines(v, t, occ)
+        lines += lean_point_lines(v, t, occ) + lean_point_lines(v, t, [])
     lean = ctx.driver(lines) if use_model else None
     found = False
     bad = 0
     undecided = 0
+    viewers = {}
     for i, (v, tk, t, occ) in enumerate(cases):
-        viewer = R.viewer(v)
-        real = R.can_see(viewer, R.target(tk, t), [R.box(b) for b in occ])
+        viewer = viewers.get(id(v))
+        if viewer is None:
+            viewer = viewers[id(v)] = R.viewer(v)
+        target = R.target(tk, t)
+        queries = [(occ, R.can_see(viewer, target, [R.box(b) for b in occ]), 12 * i)]
+        if occ:
+            queries.append(([], R.can_see(viewer, target, []), 12 * i + 6))
         ctx.case(("pt", jsonable(v), tk, jsonable(t), jsonable(occ)), nontrivial=True)
         ctx.hist("viewer_kind", v["kind"])
+        ctx.hist("viewer_glue", v.get("glue", "viewAngles"))
         ctx.hist("view_angles", angle_class(v))
         ctx.hist("point_target_kind", tk)
         ctx.hist("occluders", len(occ))
-        rep = {"kind": "point", "viewer": jsonable(v), "tkind": tk, "target": jsonable(t), "occluders": jsonable(occ)}
         if lean is None:
             continue
-        a = lean[6 * i:6 * i + 6]
-        model, ref = decided(a[0:3]), decided(a[3:6])
-        if axis_degenerate(v, t):
-            model = ref = None
-        if isinstance(real, str):
-            ctx.hist("point_outcome", real)
-            found |= ctx.violation(f"canSee-point:{real}", f"canSee raised {real} on a point target", rep)
-            continue
-        ctx.hist("point_outcome", ("visible" if real else "hidden") + ("" if ref is not None else ":undecided"))
-        if ref is None:
-            undecided += 1
-        elif ref != ("1" if real else "0"):
-            kind = "reports-visible" if real else "reports-hidden"
-            cause = "with-occluders" if occ else "no-occluders"
-            what = (f"{viewer_name(v)} at {[float(x) for x in v['p']]} canSee({tk} {[float(x) for x in t]}, "
-                    f"{len(occ)} occluders) = {real}, but the target is "
-                    f"{'inside' if ref == '1' else 'outside'} the view volume / line of sight "
-                    f"{'clear' if ref == '1' else 'blocked or outside'} (exact, margin 2^-20)")
-            found |= ctx.violation(f"canSee-point:{kind}:{cause}", what, rep)
-        if model is not None and model != ("1" if real else "0"):
-            bad += 1
-            if bad <= 5:
-                ctx.broken("correspondence", "point model vs visibility.canSee",
-                           f"viewer={jsonable(v)} target={jsonable(t)} occluders={len(occ)}: lean={model} python={real}")
+        for q_occ, real, base in queries:
+            a = lean[base:base + 6]
+            model, ref = decided(a[0:3]), decided(a[3:6])
+            if axis_degenerate(v, t):
+                model = ref = None
+            rep = {"kind": "point", "viewer": jsonable(v), "tkind": tk, "target": jsonable(t), "occluders": jsonable(q_occ),
+                   "before": jsonable(occ) if q_occ is not occ else None, "expect": None if ref is None else ref == "1"}
+            if isinstance(real, str):
+                ctx.hist("point_outcome", real)
+                rep["expect"] = "no-crash"
+                found |= ctx.violation(f"canSee-point:{real}", f"canSee raised {real} on a point target", rep)
+                continue
+            if q_occ is occ:
+                ctx.hist("point_outcome", ("visible" if real else "hidden") + ("" if ref is not None else ":undecided"))
+            if ref is None:
+                undecided += q_occ is occ
+            elif ref != ("1" if real else "0"):
+                kind = "reports-visible" if real else "reports-hidden"
+                cause = "with-occluders" if q_occ else ("no-occluders" if q_occ is occ else "no-occluders-after-occluded-query")
+                what = (f"{viewer_name(v)} at {[float(x) for x in v['p']]} canSee({tk} {[float(x) for x in t]}, "
+                        f"{len(q_occ)} occluders) = {real}, but the target is "
+                        f"{'inside' if ref == '1' else 'outside'} the view volume / line of sight "
+                        f"{'clear' if ref == '1' else 'blocked or outside'} (exact, margin 2^-20)"
+                        + ("" if q_occ is occ else f"; asked right after the same query with {len(occ)} occluders on the same viewer"))
+                found |= ctx.violation(f"canSee-point:{kind}:{cause}", what, rep)
+            if model is not None and model != ("1" if real else "0"):
+                bad += 1
+                if bad <= 5:
+                    ctx.broken("correspondence", "point model vs visibility.canSee",
+                               f"viewer={jsonable(v)} target={jsonable(t)} occluders={len(q_occ)}: lean={model} python={real}")
     ctx.extra["point_cases_undecided"] = undecided
     return found
 
@@ -506,17 +608,19 @@ def viewer_name(v):
 
 # --------------------------------------------------------------------------- (C) visibleRegion.containsPoint
 def run_regions(ctx, R):
+    """(S) visibleRegion.containsPoint vs membership in the view volume (margin 1/32 for the meshed ViewRegion);
+    (C) the model of Point.visibleRegion (generated diameter factor) and the base sphere of ViewRegion vs the real region."""
     rng = ctx.rng
-    nview = ctx.budget(40, 600)
+    nview = B(ctx, 40, 600)
     lines, meta = [], []
     for _ in range(nview):
-        v = gen_viewer(rng, kinds="OOBBP")
+        v = gen_viewer(rng, kinds="OOBBPP")
         try:
             region = R.viewer(v).visibleRegion
         except Exception as e:
             ctx.hist("region_outcome", "build-failed:" + type(e).__name__)
             continue
-        for _ in range(ctx.budget(8, 12)):
+        for _ in range(B(ctx, 8, 12)):
             t = gen_target_point(rng, v)
             try:
                 real = bool(region.containsPoint(R.vec(t)))
@@ -524,23 +628,44 @@ def run_regions(ctx, R):
                 real = "crash:" + type(e).__name__
             for var in (1, -1):
                 lines.append(" ".join(["C17", "vol"] + region_viewer_tokens(v, var) + [fr(x) for x in t]))
+            for var in (1, -1):
+                if v["kind"] == "P":
+                    lines.append(" ".join(["C17", "preg", fr(F(v["D"]) * (1 + var * REGION_EPS))] + [fr(x) for x in v["p"]]
+                                          + [fr(x) for x in t]))
+                else:
+                    lines.append(" ".join(["C17", "vbound"] + region_viewer_tokens(v, var) + [fr(x) for x in t]))
             meta.append((v, t, real))
     lean = ctx.driver(lines)
     found = False
     und = 0
+    bad = 0
     for i, (v, t, real) in enumerate(meta):
-        lo, ti = lean[2 * i], lean[2 * i + 1]
+        lo, ti, mlo, mti = lean[4 * i:4 * i + 4]
         ctx.case(("vol", jsonable(v), jsonable(t)))
-        rep = {"kind": "region", "viewer": jsonable(v), "target": jsonable(t)}
+        rep = {"kind": "region", "viewer": jsonable(v), "target": jsonable(t), "expect": None}
         if isinstance(real, str):
+            rep["expect"] = "no-crash"
             found |= ctx.violation(f"visibleRegion:{real}", f"visibleRegion.containsPoint raised {real}", rep)
             continue
+        # (C) the region model on the generated wrappers
+        if v["kind"] == "P":
+            if mlo == mti and mlo != ("1" if real else "0"):
+                bad += 1
+                if bad <= 3:
+                    ctx.broken("correspondence", "Point.visibleRegion model vs the real region",
+                               f"viewer={jsonable(v)} target={jsonable(t)}: lean={mlo} python={real}")
+        elif real and mlo == "0":
+            bad += 1
+            if bad <= 3:
+                ctx.broken("correspondence", "ViewRegion base sphere model vs the real region",
+                           f"viewer={jsonable(v)} target={jsonable(t)}: the region contains a point outside the modelled base sphere")
         if lo != ti or axis_degenerate(v, t, F(1, 1024)):
             und += 1
             ctx.hist("region_outcome", "undecided")
             continue
-        ctx.hist("region_outcome", "inside" if real else "outside")
+        ctx.hist("region_outcome", viewer_name(v) + (":inside" if real else ":outside"))
         if lo != ("1" if real else "0"):
+            rep["expect"] = lo == "1"
             what = (f"{viewer_name(v)}.visibleRegion.containsPoint({[float(x) for x in t]}) = {real} but the point is "
                     f"{'inside' if lo == '1' else 'outside'} the view volume by a margin of 1/32 (viewer {jsonable(v)})")
             found |= ctx.violation(f"visibleRegion:{viewer_name(v)}:{'contains-outside-point' if real else 'misses-inside-point'}", what, rep)
@@ -628,6 +753,34 @@ def gen_straddle_scene(rng, v):
     return mode, tgt, [(sb, F(7, 20))]
 
 
+def gen_straddle_distance(rng, v):
+    """a long box pointing away from the viewer whose centre is beyond the visible distance while its near part
+    (35 % of its volume) is within it and inside both windows: the centre shortcut cannot answer, rays hit the target
+    both within and beyond the visible distance."""
+    cam = cam_of(v)
+    R = qmat(v["q"]) if v["kind"] != "P" else qmat((1, 0, 0, 0))
+    a0, a1 = angle_of(v["t0"]) / 2, angle_of(v["t1"]) / 2
+    Df = float(v["D"])
+    az = rng.uniform(-1, 1) * min(a0, 3.0) * 0.5
+    t = F(math.tan(az / 4)).limit_denominator(64)
+    az = 4 * math.atan(float(t))
+    hy = Df * rng.uniform(0.25, 0.4)
+    dc = Df * (1 + rng.uniform(0.02, max(0.025, 0.3 * hy / Df - 0.04)))
+    near = dc - hy
+    hx = snap(F(min(1.0, max(0.1, math.tan(min(a0, 1.2) * 0.3) * near))), 16) + F(1, 16)
+    hz = snap(F(min(1.0, max(0.1, math.tan(min(a1, 1.2) * 0.3) * near))), 16) + F(1, 16)
+    loc = [-math.sin(az) * dc, math.cos(az) * dc, 0.0]
+    c = vadd(cam, mapply(R, [snap(F(x), 64) for x in loc]))
+    q = tuple(F(x) for x in v["q"]) if v["kind"] != "P" else (F(1), F(0), F(0), F(0))
+    tgt = dict(c=c, q=qmul(q, yaw_quat(t)), h=[hx, snap(F(hy), 16), hz])
+    lo_hi = [(F(-1), F(1)), (F(-1), F(-3, 10)), (F(-1), F(1))]
+    M = qmat(tgt["q"])
+    mid = [(lo + hi) / 2 * F(tgt["h"][i]) for i, (lo, hi) in enumerate(lo_hi)]
+    half = [(hi - lo) / 2 * F(tgt["h"][i]) for i, (lo, hi) in enumerate(lo_hi)]
+    sb = dict(c=vadd(tgt["c"], mapply(M, mid)), q=tgt["q"], h=half)
+    return "straddle-distance", tgt, [(sb, F(7, 20))]
+
+
 def gen_long_scene(rng, v):
     """a long thin box whose near end is within the visible distance but outside the azimuth window and whose far end is
     inside the window but beyond the visible distance: wholly outside the view volume, although no single plane or
@@ -702,19 +855,23 @@ def unit_dir_candidates(v, box):
     return out
 
 
+SHAPES = ["box", "box", "sphere", "cyl", "cone"]
+
+
 def run_objects(ctx, R, use_model):
     rng = ctx.rng
-    n = ctx.budget(160, 2500)
+    n = B(ctx, 170, 2500)
     scenes = []
     for _ in range(n):
         v = gen_viewer(rng, kinds="OBBBP")
         if v["D"] > 30:
             v["D"] = F(30)
         r = rng.random()
-        st = gen_straddle_scene(rng, v) if r < 0.35 else None
-        lg = gen_long_scene(rng, v) if 0.35 <= r < 0.47 else None
-        if st is not None:
-            mode, tgt, subs = st
+        st = gen_straddle_scene(rng, v) if r < 0.33 else None
+        lg = gen_long_scene(rng, v) if 0.33 <= r < 0.44 else None
+        sd = gen_straddle_distance(rng, v) if 0.44 <= r < 0.56 else None
+        if st is not None or sd is not None:
+            mode, tgt, subs = st or sd
             subs = subs * 3
         elif lg is not None:
             mode, tgt = lg
@@ -722,18 +879,18 @@ def run_objects(ctx, R, use_model):
         else:
             mode, tgt, _ = gen_object_scene(rng, v)
             subs = [sub_box(rng, tgt) for _ in range(3)]
-        scenes.append((v, mode, tgt, subs))
+        scenes.append((v, mode, tgt, subs, rng.choice(SHAPES)))
     if not use_model:
         return False
     lines = []
-    for v, mode, tgt, subs in scenes:
+    for v, mode, tgt, subs, shape in scenes:
         # outside certificate on the loose viewer and the inflated box; geometry of the box
         lines.append(" ".join(["C17", "out"] + viewer_tokens(v, 1) + box_tokens(tgt, 1)))
         lines.append(" ".join(["C17", "geo"] + viewer_tokens(v, 0) + box_tokens(tgt, 0)))
         lines.append(" ".join(["C17", "vol"] + viewer_tokens(v, 1) + [fr(x) for x in tgt["c"]]))
         for sl in slices(tgt):
             lines.append(" ".join(["C17", "out"] + viewer_tokens(v, 1) + box_tokens(sl, 1)))
-        for sb, _ in subs:
+        for sb, _ in subs + [(tgt, F(1))]:          # the last one: the whole bounding box
             us = unit_dir_candidates(v, sb)[:3]
             for u in us:
                 lines.append(" ".join(["C17", "in"] + viewer_tokens(v, -1) + box_tokens(sb, 1) + [fr(u[0]), fr(u[1])]))
@@ -741,7 +898,7 @@ def run_objects(ctx, R, use_model):
     found = False
     k = 0
     stats = {"outside": 0, "inside": 0, "undecided": 0}
-    for v, mode, tgt, subs in scenes:
+    for v, mode, tgt, subs, shape in scenes:
         out = lean[k] == "1"
         geo = lean[k + 1].split()
         centre_in = lean[k + 2] == "1"
@@ -755,10 +912,16 @@ def run_objects(ctx, R, use_model):
             for _ in range(3):
                 inside |= lean[k] == "1"
                 k += 1
+        whole_inside = any(x == "1" for x in lean[k:k + 3])
+        k += 3
         cam_inside = geo[2] == "1"
         ctx.hist("object_mode", mode)
+        # any shape inscribed in the bounding box is outside when the box is, and inside when the whole box is;
+        # a part of the box being inside says nothing about another shape
+        tgt = dict(tgt, shape=shape if (out or whole_inside) else "box")
+        ctx.hist("object_shape", tgt["shape"])
         ctx.case(("obj", jsonable(v), jsonable(tgt)))
-        rep = {"kind": "object", "viewer": jsonable(v), "target": jsonable(tgt), "occluders": []}
+        rep = {"kind": "object", "viewer": jsonable(v), "target": jsonable(tgt), "occluders": [], "expect": None}
         if cam_inside:
             ctx.hist("object_oracle", "camera-inside-target(skipped)")
             continue
@@ -767,26 +930,29 @@ def run_objects(ctx, R, use_model):
         if out:
             stats["outside"] += 1
             # occluders cannot make an outside object visible either
-            occ = [R.box(b) for b in gen_occluders(rng, v, tgt["c"])[:2]]
-            real = R.can_see(viewer, target, occ)
+            occ_d = gen_occluders(rng, v, tgt["c"])[:2]
+            real = R.can_see(viewer, target, [R.box(b) for b in occ_d])
             ctx.hist("object_oracle", "outside:" + str(real))
+            rep.update(occluders=jsonable(occ_d), expect=False)
             if real is not False:
                 found |= ctx.violation("canSee-object:outside-reported-visible" if real is True else f"canSee-object:{real}",
-                                       f"{viewer_name(v)}.canSee(box at {[float(x) for x in tgt['c']]}) = {real} although the box lies "
+                                       f"{viewer_name(v)}.canSee({tgt['shape']} in the box at {[float(x) for x in tgt['c']]}) = {real} although the box lies "
                                        f"wholly outside the view volume (certificate, possibly slice by slice: too far, above/below the altitude band, or separated by a plane bounding the azimuth window)",
                                        rep)
-        elif inside:
+        elif inside or whole_inside:
             stats["inside"] += 1
             real = R.can_see(viewer, target, [])
-            ctx.hist("object_oracle", f"substantial-part-inside(centre {'inside' if centre_in else 'outside'}):" + str(real))
+            ctx.hist("object_oracle", f"{'whole' if whole_inside else 'substantial-part'}-inside(centre {'inside' if centre_in else 'outside'}):" + str(real))
+            rep["expect"] = True
             if real is not True:
                 found |= ctx.violation("canSee-object:inside-reported-hidden" if real is False else f"canSee-object:{real}",
-                                       f"{viewer_name(v)}.canSee(box at {[float(x) for x in tgt['c']]}) = {real} with no occluders although "
-                                       f"at least a quarter of the box lies inside the view volume", rep)
+                                       f"{viewer_name(v)}.canSee({tgt['shape']} in the box at {[float(x) for x in tgt['c']]}) = {real} with no occluders although "
+                                       f"{'the whole bounding box' if whole_inside else 'at least a quarter of the box'} lies inside the view volume", rep)
         else:
             stats["undecided"] += 1
             real = R.can_see(viewer, target, [])        # no ground truth: only crash-freedom is checked
             ctx.hist("object_oracle", "undecided:" + str(real))
+            rep["expect"] = "no-crash"
             if isinstance(real, str):
                 found |= ctx.violation(f"canSee-object:{real}", f"canSee raised {real} on an object target", rep)
     ctx.extra["object_oracle"] = stats
@@ -824,7 +990,7 @@ def box_vertices(b):
 
 def run_occlusion(ctx, R, use_model):
     rng = ctx.rng
-    n = ctx.budget(36, 300)
+    n = B(ctx, 36, 300)
     found = False
     scenes = []
     tries = 0
@@ -839,7 +1005,10 @@ def run_occlusion(ctx, R, use_model):
         if abs(alt) > 0.9:
             continue
         wall = wall_between(rng, v, tgt, rng.choice([F(1, 4), F(1, 2), F(5, 8)]))
-        extra = gen_occluders(rng, v, tgt["c"])[:2]
+        # the target and the extra occluders may be any shape inscribed in their boxes (what is hidden with the box is
+        # hidden with the shape; monotonicity holds for every shape); the certified wall stays a box
+        tgt = dict(tgt, shape=rng.choice(SHAPES))
+        extra = [dict(b, shape=rng.choice(SHAPES)) for b in gen_occluders(rng, v, tgt["c"])[:2]]
         scenes.append((v, tgt, wall, extra))
     if use_model:
         lines = []
@@ -862,18 +1031,21 @@ def run_occlusion(ctx, R, use_model):
             cam_in_tgt = lean[k + 10].split()[2] == "1"
             k += 11
             hidden = blocked and not cam_in_wall and not cam_in_tgt
-        viewer = R.viewer(v, ray_density=rng.choice([2, 2, 5]))
+        dens = rng.choice([2, 2, 5])
+        viewer = R.viewer(v, ray_density=dens)
         target = R.box(tgt)
         w = R.box(wall)
         ex = [R.box(b) for b in extra]
-        rep = {"kind": "object", "viewer": jsonable(v), "target": jsonable(tgt), "occluders": jsonable([wall] + extra)}
+        rep = {"kind": "object", "viewer": jsonable(v), "target": jsonable(tgt), "occluders": jsonable([wall] + extra),
+               "ray_density": dens, "expect": False}
         ctx.case(("occ", jsonable(v), jsonable(tgt), jsonable(wall)))
+        ctx.hist("occlusion_target_shape", tgt["shape"])
         r_all = R.can_see(viewer, target, [w] + ex)
         r_wall = R.can_see(viewer, target, [w])
         r_none = R.can_see(viewer, target, [])
         for r in (r_all, r_wall, r_none):
             if isinstance(r, str):
-                found |= ctx.violation(f"canSee-object:{r}", f"canSee raised {r} on an object target", rep)
+                found |= ctx.violation(f"canSee-object:{r}", f"canSee raised {r} on an object target", dict(rep, expect="no-crash"))
         if hidden:
             stats["hidden"] += 1
             ctx.hist("occlusion_oracle", "hidden-behind-wall:" + str(r_wall))
@@ -881,7 +1053,8 @@ def run_occlusion(ctx, R, use_model):
                 found |= ctx.violation("canSee-object:hidden-reported-visible",
                                        f"{viewer_name(v)}.canSee(box at {[float(x) for x in tgt['c']]}) = True although every line of sight "
                                        f"to the box (all 8 vertices and the centre, hence by convexity the whole box) crosses the wall "
-                                       f"at {[float(x) for x in wall['c']]}", rep)
+                                       f"at {[float(x) for x in wall['c']]}",
+                                       dict(rep, occluders=jsonable([wall] if r_wall is True else [wall] + extra)))
         else:
             stats["not-certified"] += 1
             ctx.hist("occlusion_oracle", "wall-not-certified")
@@ -889,7 +1062,8 @@ def run_occlusion(ctx, R, use_model):
         stats["monotone"] += 1
         if (r_all is True and r_wall is False) or (r_wall is True and r_none is False) or (r_all is True and r_none is False):
             found |= ctx.violation("canSee-object:not-monotone",
-                                   f"adding occluders made a hidden object visible: none={r_none} wall={r_wall} wall+extra={r_all}", rep)
+                                   f"adding occluders made a hidden object visible: none={r_none} wall={r_wall} wall+extra={r_all}",
+                                   dict(rep, expect="monotone"))
         ctx.hist("occlusion_results", f"none={r_none},wall={r_wall},all={r_all}")
     ctx.extra["occlusion_oracle"] = stats
     return found
@@ -899,10 +1073,10 @@ def run_monotone_points(ctx, R):
     """adding occluders to a point query never turns hidden into visible (real code only)"""
     rng = ctx.rng
     found = False
-    for _ in range(ctx.budget(150, 3000)):
+    for _ in range(B(ctx, 150, 3000)):
         v = gen_viewer(rng)
         t = gen_target_point(rng, v)
-        occ = gen_occluders(rng, v, t) + gen_occluders(rng, v, t)
+        occ = [dict(b, shape=rng.choice(SHAPES)) for b in gen_occluders(rng, v, t) + gen_occluders(rng, v, t)]
         if not occ:
             continue
         viewer = R.viewer(v)
@@ -915,7 +1089,8 @@ def run_monotone_points(ctx, R):
         ctx.case(("mono", jsonable(v), jsonable(t), jsonable(occ), k))
         ctx.hist("monotone_points", f"less={less},more={more}")
         if more is True and less is False:
-            rep = {"kind": "monotone", "viewer": jsonable(v), "target": jsonable(t), "occluders": jsonable(occ), "drop": k}
+            rep = {"kind": "monotone", "viewer": jsonable(v), "target": jsonable(t), "occluders": jsonable(occ), "drop": k,
+                   "expect": "monotone"}
             found |= ctx.violation("canSee-point:not-monotone", "removing an occluder made a visible point hidden", rep)
     return found
 
@@ -934,7 +1109,7 @@ def run_rigid(ctx, R, use_model):
     rng = ctx.rng
     found = False
     scenes = []
-    for _ in range(ctx.budget(200, 4000)):
+    for _ in range(B(ctx, 200, 4000)):
         v = gen_viewer(rng, kinds="OB")
         t = gen_target_point(rng, v)
         occ = gen_occluders(rng, v, t)[:2]
@@ -965,9 +1140,238 @@ def run_rigid(ctx, R, use_model):
         ctx.hist("rigid", f"{r1}")
         if r1 != r2:
             rep = {"kind": "rigid", "viewer": jsonable(v), "target": jsonable(t), "occluders": jsonable(occ),
-                   "Q": list(Q), "b": jsonable(b)}
+                   "Q": list(Q), "b": jsonable(b), "expect": "equal"}
             found |= ctx.violation("canSee-point:not-rigid-invariant",
                                    f"canSee = {r1} but {r2} after moving viewer, target and occluders by the same rigid motion", rep)
+    return found
+
+
+# --------------------------------------------------------------------------- (C)+(S) 2D compatibility mode
+def gen_viewer2d(rng):
+    kind = rng.choice("POOBB")
+    D = rng.choice([F(5), F(10), F(20), F(13, 2)])
+    p = [dy(rng, -40, 40), dy(rng, -40, 40), F(0)]
+    if rng.random() < 0.08:
+        p = [F(10), F(0), F(0)]
+    th = None if rng.random() < 0.06 else F(rng.randint(-64, 64), rng.choice([8, 16, 32]))     # heading = 2 atan(th)
+    off = [F(0)] * 3
+    if kind == "B" and rng.random() < 0.7:
+        off = [dy(rng, -2, 2), dy(rng, -2, 2), F(0)]
+    r = rng.random()
+    if r < 0.15:
+        t0 = None
+    elif r < 0.45:
+        t0 = F(rng.randint(1, 12), 32)
+    elif r < 0.65:
+        t0 = F(rng.randint(13, 31), 32)
+    elif r < 0.7:
+        t0 = F(1)
+    else:
+        t0 = F(rng.randint(33, 200), 32)
+    if kind == "P":
+        th, t0 = F(0), None
+    return dict(kind=kind, D=D, p=p, th=th, off=off, t0=t0)
+
+
+def v3_of(v2):
+    """the 3D viewer with the same camera: orientation = yaw by the heading, viewAngles = (viewAngle, pi)"""
+    return dict(kind=v2["kind"], D=v2["D"], p=v2["p"], q=yaw_q(v2["th"]) if v2["kind"] != "P" else (1, 0, 0, 0),
+                off=v2["off"], t0=v2["t0"], t1=F(1))
+
+
+def box3_of(b2):
+    return dict(c=b2["c"], q=yaw_q(b2["th"]), h=b2["h"])
+
+
+def c2d_tokens(v2, t, var):
+    sc = 1 + var * EPS
+    c0, s0 = half_cs(None if v2["t0"] is None else F(v2["t0"]) * sc)
+    th = v2["th"]
+    if th is None:
+        hc, hs = F(-1), F(0)
+    else:
+        th = F(th)
+        hc, hs = (1 - th * th) / (1 + th * th), 2 * th / (1 + th * th)
+    return (["C17", "c2d", v2["kind"], fr(F(v2["D"]) * sc)] + [fr(x) for x in v2["p"]] + [fr(hc), fr(hs)]
+            + [fr(x) for x in v2["off"]] + [fr(c0), fr(s0)] + [fr(x) for x in t])
+
+
+def gen_box2d(rng, centre, big=False):
+    h = [dy(rng, 1, 10 if big else 6, 4) / 2, dy(rng, 1, 10 if big else 6, 4) / 2, F(1, 2)]
+    if rng.random() < 0.3:
+        h[rng.randrange(2)] = F(1, 16)
+    return dict(c=[snap(F(centre[0]), 16), snap(F(centre[1]), 16), F(0)], th=F(rng.randint(-40, 40), 16), h=h)
+
+
+def gen_occluders2d(rng, v3, t):
+    cam = cam_of(v3)
+    d = vsub(t, cam)
+    occ = []
+    for _ in range(rng.choice([0, 0, 0, 1, 1, 2])):
+        f = rng.choice([F(1, 4), F(1, 2), F(3, 4), F(11, 10), F(-1, 4)])
+        lat = [dy(rng, -3, 3, 4) if rng.random() < 0.5 else F(0) for _ in range(2)] + [F(0)]
+        occ.append(gen_box2d(rng, vadd(vadd(cam, [f * x for x in d]), lat)))
+    return occ
+
+
+def gen_object2d(rng, v2):
+    v3 = v3_of(v2)
+    cam = cam_of(v3)
+    Rm = qmat(v3["q"])
+    a0 = angle_of(v2["t0"]) / 2
+    Df = float(v2["D"])
+    mode = rng.choice(["inside", "inside", "edge", "edge", "behind", "beside", "far", "rim", "anywhere"])
+    dist = Df * rng.uniform(0.2, 0.8)
+    if mode == "inside":
+        az = rng.uniform(-a0, a0) * 0.7
+    elif mode == "edge":
+        az = rng.choice([-1, 1]) * a0 * rng.uniform(0.85, 1.25)
+    elif mode == "behind":
+        az = math.pi + rng.uniform(-0.5, 0.5)
+    elif mode == "beside":
+        az = rng.choice([-1, 1]) * rng.uniform(a0, math.pi)
+    elif mode == "far":
+        az, dist = rng.uniform(-a0, a0) * 0.7, Df * rng.uniform(1.05, 1.6)
+    elif mode == "rim":
+        az, dist = rng.uniform(-a0, a0) * 0.7, Df * rng.uniform(0.9, 1.15)
+    else:
+        az, dist = rng.uniform(-math.pi, math.pi), Df * rng.uniform(0.1, 1.3)
+    loc = [F(-math.sin(az) * dist), F(math.cos(az) * dist), F(0)]
+    c = vadd(cam, mapply(Rm, loc))
+    size = max(1.0, dist * rng.choice([0.08, 0.15, 0.3]))
+    h = [snap(F(size * rng.uniform(0.5, 1.0)), 8) / 2 + F(1, 4) for _ in range(2)] + [F(1, 2)]
+    return mode, dict(c=[snap(c[0], 16), snap(c[1], 16), F(0)], th=F(rng.randint(-40, 40), 16), h=h)
+
+
+def region_box_tokens(b, var):
+    sc = 1 + var * REGION_EPS
+    return [fr(x) for x in b["c"]] + [fr(x) for x in b["q"]] + [fr(F(x) * sc) for x in b["h"]]
+
+
+def run_2d(ctx, R, use_model):
+    """2D compatibility mode.  (C) the model of the fast path (`c2d`, generated 2D configuration) vs
+    `Point2D / OrientedPoint2D / Object2D.canSee` without occluders, and the 3D model vs the same call with occluders
+    (which the code routes to the 3D class); (S) the reference point predicate of the viewer with orientation = yaw by
+    the heading, viewAngles = (viewAngle, pi) vs the real answer for planar targets; for Object2D targets the two
+    one-sided certificates."""
+    if not use_model:
+        return False
+    rng = ctx.rng
+    cases = []
+    n = B(ctx, 300, 6000)
+    # the (10,0,0) regression configuration in 2D: a viewer facing west sees the point 5 m ahead
+    v = dict(kind="O", D=F(20), p=[F(10), F(0), F(0)], th=F(1), off=[F(0)] * 3, t0=F(1, 4))
+    cases.append((v, "vector", [F(5), F(0), F(0)], []))
+    cases.append((v, "vector", [F(15), F(0), F(0)], []))
+    while len(cases) < n:
+        v = gen_viewer2d(rng)
+        v3 = v3_of(v)
+        for _ in range(rng.choice([1, 2, 4])):
+            t = gen_target_point(rng, v3)
+            r = rng.random()
+            occ = []
+            if r < 0.9:
+                t[2] = F(0)
+                occ = gen_occluders2d(rng, v3, t)
+            else:
+                t[2] = rng.choice([F(1, 64), F(-1, 2), F(3)])        # off the plane: never visible on the fast path
+            cases.append((v, rng.choice(["vector", "vector", "point2d"]), t, occ))
+    cases = cases[:n]
+    lines = []
+    for v, tk, t, occ in cases:
+        for var in (0, 1, -1):
+            lines.append(" ".join(c2d_tokens(v, t, var)))
+        lines += lean_point_lines(v3_of(v), t, [box3_of(b) for b in occ])
+    lean = ctx.driver(lines)
+    found = False
+    bad = 0
+    viewers = {}
+    for i, (v, tk, t, occ) in enumerate(cases):
+        a = lean[9 * i:9 * i + 9]
+        fast, model3, ref = decided(a[0:3]), decided(a[3:6]), decided(a[6:9])
+        model = model3 if occ else fast
+        v3 = v3_of(v)
+        planar = t[2] == 0
+        if t == cam_of(v3):
+            continue
+        viewer = viewers.get(id(v))
+        if viewer is None:
+            viewer = viewers[id(v)] = R.viewer2d(v)
+        try:
+            real = bool(viewer.canSee(R.target2d(tk, t), occludingObjects=tuple(R.box2d(b, occluding=True) for b in occ)))
+        except Exception as e:
+            real = "crash:" + type(e).__name__
+        ctx.case(("2d", jsonable(v), tk, jsonable(t), jsonable(occ)))
+        ctx.hist("2d_viewer_kind", v["kind"])
+        ctx.hist("2d_occluders", len(occ))
+        rep = {"kind": "point2d", "viewer": jsonable(v), "tkind": tk, "target": jsonable(t), "occluders": jsonable(occ),
+               "expect": None if (ref is None or not planar) else ref == "1"}
+        if isinstance(real, str):
+            rep["expect"] = "no-crash"
+            found |= ctx.violation(f"canSee2D-point:{real}", f"2D canSee raised {real} on a point target", rep)
+            continue
+        ctx.hist("2d_point_outcome", ("visible" if real else "hidden") + ("" if planar else ":off-plane") + ("" if ref is not None else ":undecided"))
+        if planar and ref is not None and ref != ("1" if real else "0"):
+            kind = "reports-visible" if real else "reports-hidden"
+            what = (f"2D mode: {viewer_name(v)}2D at {[float(x) for x in v['p']]} heading {heading_of(v['th']):.4f} "
+                    f"canSee({tk} {[float(x) for x in t]}, {len(occ)} occluders) = {real}, but the target is "
+                    f"{'inside the sector and unobstructed' if ref == '1' else 'outside the sector or obstructed'} (exact, margin 2^-20)")
+            found |= ctx.violation(f"canSee2D-point:{kind}:{'with-occluders' if occ else 'no-occluders'}", what, rep)
+        if model is not None and model != ("1" if real else "0"):
+            bad += 1
+            if bad <= 5:
+                ctx.broken("correspondence", "2D fast-path model vs Point2D.canSee" if not occ else "3D model vs Point2D.canSee with occluders",
+                           f"viewer={jsonable(v)} target={jsonable(t)} occluders={len(occ)}: lean={model} python={real}")
+    # Object2D targets, no occluders: visible iff the bounding polygon meets the sector polygon
+    scenes = []
+    for _ in range(B(ctx, 60, 800)):
+        v = gen_viewer2d(rng)
+        mode, tgt = gen_object2d(rng, v)
+        scenes.append((v, mode, tgt, [sub_box(rng, box3_of(tgt)) for _ in range(3)]))
+    lines = []
+    for v, mode, tgt, subs in scenes:
+        v3, b3 = v3_of(v), box3_of(tgt)
+        lines.append(" ".join(["C17", "out"] + region_viewer_tokens(v3, 1) + region_box_tokens(b3, 1)))
+        lines.append(" ".join(["C17", "geo"] + viewer_tokens(v3, 0) + box_tokens(b3, 0)))
+        for sb, _ in subs:
+            for u in unit_dir_candidates(v3, sb)[:3]:
+                lines.append(" ".join(["C17", "in"] + region_viewer_tokens(v3, -1) + region_box_tokens(sb, 1) + [fr(u[0]), fr(u[1])]))
+    lean = ctx.driver(lines)
+    k = 0
+    stats = {"outside": 0, "inside": 0, "undecided": 0}
+    for v, mode, tgt, subs in scenes:
+        out = lean[k] == "1"
+        cam_inside = lean[k + 1].split()[2] == "1"
+        inside = any(x == "1" for x in lean[k + 2:k + 11])
+        k += 11
+        ctx.case(("2dobj", jsonable(v), jsonable(tgt)))
+        ctx.hist("2d_object_mode", mode)
+        if cam_inside:
+            continue
+        try:
+            real = bool(R.viewer2d(v).canSee(R.box2d(tgt)))
+        except Exception as e:
+            real = "crash:" + type(e).__name__
+        rep = {"kind": "object2d", "viewer": jsonable(v), "target": jsonable(tgt), "expect": False if out else True if inside else "no-crash"}
+        if isinstance(real, str):
+            rep["expect"] = "no-crash"
+            found |= ctx.violation(f"canSee2D-object:{real}", f"2D canSee raised {real} on an object target", rep)
+        elif out:
+            stats["outside"] += 1
+            if real:
+                found |= ctx.violation("canSee2D-object:outside-reported-visible",
+                                       f"2D mode: {viewer_name(v)}2D.canSee(box at {[float(x) for x in tgt['c']]}) = True although the box lies wholly "
+                                       f"outside the sector (certificate with margin 1/32)", rep)
+        elif inside:
+            stats["inside"] += 1
+            if not real:
+                found |= ctx.violation("canSee2D-object:inside-reported-hidden",
+                                       f"2D mode: {viewer_name(v)}2D.canSee(box at {[float(x) for x in tgt['c']]}) = False although at least a quarter of "
+                                       f"the box lies inside the sector", rep)
+        else:
+            stats["undecided"] += 1
+        ctx.hist("2d_object_oracle", ("outside" if out else "inside" if inside else "undecided") + ":" + str(real))
+    ctx.extra["object2d_oracle"] = stats
     return found
 
 
@@ -1044,7 +1448,7 @@ def run_programs(ctx, R, use_model):
     rng = ctx.rng
     found = False
     items = []
-    for _ in range(ctx.budget(30, 300)):
+    for _ in range(B(ctx, 30, 300)):
         g = gen_program(rng)
         src, d = build_program(g)
         items.append((g, src, d))
@@ -1067,7 +1471,7 @@ def run_programs(ctx, R, use_model):
             accepted = "crash:" + type(e).__name__
         ctx.case(("prog", src))
         ctx.hist("program", f"{g['form']}:{g['place']}:{g['blocked']}")
-        rep = {"kind": "program", "program": src}
+        rep = {"kind": "program", "program": src, "expect": "no-crash"}
         if isinstance(accepted, str):
             found |= ctx.violation(f"program:{accepted}", f"scene generation raised {accepted}", rep)
             continue
@@ -1078,6 +1482,7 @@ def run_programs(ctx, R, use_model):
             continue
         want_visible = g["form"] not in ("notop", "notvisible")
         should_accept = expected == want_visible
+        rep["expect"] = should_accept
         ctx.hist("program_outcome", f"visible={expected},accepted={accepted}")
         if accepted != should_accept:
             found |= ctx.violation(f"program:{g['form']}:{'accepted' if accepted else 'rejected'}",
@@ -1116,8 +1521,11 @@ def expected_program(ctx, g, d, use_model):
 def run(ctx):
     ctx.rule = ("cases = (viewer kind Point/OrientedPoint/Object, position, rational-quaternion orientation, camera offset, "
                 "view angles narrow/<180/>180/full, visible distance) x (vector/Point/OrientedPoint/box target, boundary-dense "
-                "in the viewer frame) x (0-5 box occluders along/near the line of sight); plus viewers x visibleRegion probes, "
-                "rigid motions, occluder subsets and whole programs; all non-trivial; distinct by content hash")
+                "in the viewer frame) x (0-5 box occluders along/near the line of sight), each query with occluders repeated "
+                "without them on the same viewer object; plus viewers x visibleRegion probes, box/spheroid/cylinder/cone targets "
+                "(inside, straddling a window edge or the visible distance, outside), rigid motions, occluder subsets, "
+                "2D-mode viewers (Point2D/OrientedPoint2D/Object2D) x planar points / boxes / occluders, and whole programs; "
+                "all non-trivial; distinct by content hash")
     ctx.assumptions += [
         "occluders and object targets are boxes; trimesh ray/mesh intersection is trusted to report the true surface hits "
         "(validated on every run by the correspondence on boxes)",
@@ -1125,7 +1533,11 @@ def run(ctx):
         "perturbation of 2^-20 of the distance, the half-angle tangents and the box extents (1/32 for the meshed ViewRegion)",
         "the ray grid of the object branch (density, batching, shuffling) is not modelled: objects are checked through the "
         "one-sided conditions of the property only",
-        "2D compatibility mode (Point2D.canSee without occluders) is outside the model",
+        "2D compatibility mode: the fast path for point targets is modelled (disc / sector membership) and proved to agree "
+        "with the point predicate on planar scenes; for Object2D targets (polygon intersection) only the two one-sided "
+        "conditions are checked on the real code (margin 1/32 for the 128-gon approximating the disc)",
+        "non-box shapes (spheroid, cylinder, cone) enter only through their bounding boxes: wholly outside / wholly inside / "
+        "hidden behind a wall for the box implies the same for the inscribed shape; monotonicity is checked for all shapes",
     ]
     ctx.trusted_base += ["tools/translate/visibility.py (template extraction)",
                          "tools/props/c17.py (correspondence harness, case generators, certificates' use)"]
@@ -1154,66 +1566,153 @@ def run(ctx):
         ctx.notes.append("theorem module does not build; driver " + ("rebuilt separately" if use_model else "does not build either"))
     found = False
     phases = {"prove": round(ctx.elapsed(), 1)}
-    for name, fn in (("points", lambda: run_points(ctx, R, use_model)),
+    # an escalated run (changed fingerprint, lost translator tie, broken proof) searches in two stages: every phase at the
+    # quick budget first (a failing input that is easy to find is found within minutes), then every phase at the thorough one
+    stages = ["quick-budget stage", "thorough-budget stage"] if (ctx.tier != "thorough" and (ctx.escalated or not pr.ok)) else [""]
+    for stage in stages:
+      STAGE["force_quick"] = stage.startswith("quick")
+      for name, fn in (("points", lambda: run_points(ctx, R, use_model)),
                      ("regions", lambda: run_regions(ctx, R) if use_model else False),
                      ("objects", lambda: run_objects(ctx, R, use_model)),
                      ("occlusion", lambda: run_occlusion(ctx, R, use_model)),
                      ("monotone", lambda: run_monotone_points(ctx, R)),
                      ("rigid", lambda: run_rigid(ctx, R, use_model)),
+                     ("mode2d", lambda: run_2d(ctx, R, use_model)),
                      ("programs", lambda: run_programs(ctx, R, use_model))):
+        name = (stage + ":" + name) if stage else name
         if found:
             phases[name] = "skipped (a failing input was already found)"
             continue
         t0 = time.time()
         found |= bool(fn())
         phases[name] = round(time.time() - t0, 1)
+    STAGE["force_quick"] = False
     ctx.extra["phase_seconds"] = phases
     ctx.resolve_brokens(found)
 
 
 def replay(ctx, path):
+    """Re-executes the recorded input against the real code of $SCENIC_REPO and compares with the recorded expectation
+    (what the property demands of this input, established exactly when the input was found).
+    Exit status 1 = the violation is reproduced, 0 = the code now behaves as the property demands."""
     body = json.load(open(path))
     rep = body.get("replay", body)
-    R = Real()
     kind = rep.get("kind")
+    if kind is None:
+        print(json.dumps(rep, indent=1)[:3000])
+        print("nothing to re-execute (no concrete input was found for this report)")
+        return 0
+    R = Real()
+    expect = rep.get("expect")
+    results = []
+
+    def quats(o):
+        o["q"] = tuple(F(x) for x in o["q"])
+        return o
+
+    def verdict(bad, msg):
+        print(("REPRODUCED: " if bad else "not reproduced: ") + msg)
+        return 1 if bad else 0
+
     if kind in ("point", "object", "monotone", "rigid", "region"):
-        v = unjson(rep["viewer"])
-        v["q"] = tuple(F(x) for x in v["q"])
-        occ = unjson(rep.get("occluders", []))
-        for o in occ:
-            o["q"] = tuple(F(x) for x in o["q"])
-        viewer = R.viewer(v)
-        boxes = [R.box(o) for o in occ]
-        print("viewer:", viewer_name(v), "position", [float(x) for x in v["p"]], "quaternion(w,x,y,z)", v["q"],
+        v = quats(unjson(rep["viewer"]))
+        occ = [quats(o) for o in unjson(rep.get("occluders", []))]
+        viewer = R.viewer(v, ray_density=rep.get("ray_density"))
+        print("viewer:", viewer_name(v), "position", [float(x) for x in v["p"]], "quaternion(w,x,y,z)", [str(x) for x in v["q"]],
               "cameraOffset", [float(x) for x in v["off"]], "viewAngles", (angle_of(v["t0"]), angle_of(v["t1"])),
-              "visibleDistance", float(v["D"]))
+              "visibleDistance", float(v["D"]), "given as", v.get("glue", "viewAngles"))
         if kind == "object":
-            tg = unjson(rep["target"])
-            tg["q"] = tuple(F(x) for x in tg["q"])
-            print("target box:", jsonable(tg))
-            print("canSee(target, occluders) ->", R.can_see(viewer, R.box(tg), boxes))
-            print("canSee(target, ())        ->", R.can_see(viewer, R.box(tg), []))
-        elif kind == "region":
+            tg = quats(unjson(rep["target"]))
+            print("target:", jsonable(tg))
+            target = R.box(tg)
+            r_occ = R.can_see(viewer, target, [R.box(o) for o in occ])
+            print(f"canSee(target, {len(occ)} occluders) ->", r_occ)
+            if expect == "monotone":
+                r_wall = R.can_see(viewer, target, [R.box(o) for o in occ[:1]])
+                r_none = R.can_see(viewer, target, [])
+                print("canSee(target, first occluder) ->", r_wall, "; canSee(target, ()) ->", r_none)
+                bad = (r_occ is True and r_wall is False) or (r_wall is True and r_none is False) or (r_occ is True and r_none is False)
+                return verdict(bad, "adding occluders must never turn hidden into visible")
+            if expect == "no-crash":
+                return verdict(isinstance(r_occ, str), "canSee must not raise")
+            return verdict(r_occ is not expect, f"the property demands {expect}")
+        if kind == "region":
             t = unjson(rep["target"])
-            print("visibleRegion.containsPoint", [float(x) for x in t], "->", viewer.visibleRegion.containsPoint(R.vec(t)))
-        else:
-            t = unjson(rep["target"])
-            print("target:", [float(x) for x in t], "occluders:", len(occ))
-            print("canSee(target, occluders) ->", R.can_see(viewer, R.target(rep.get("tkind", "vector"), t), boxes))
-            print("canSee(target, ())        ->", R.can_see(viewer, R.vec(t), []))
-            if kind == "rigid":
-                v2, t2, occ2 = move_scene(v, t, occ, tuple(int(x) for x in rep["Q"]), unjson(rep["b"]))
-                print("after the rigid motion    ->", R.can_see(R.viewer(v2), R.vec(t2), [R.box(o) for o in occ2]))
+            try:
+                r = bool(viewer.visibleRegion.containsPoint(R.vec(t)))
+            except Exception as e:
+                r = "crash:" + type(e).__name__
+            print("visibleRegion.containsPoint", [float(x) for x in t], "->", r)
+            if expect == "no-crash":
+                return verdict(isinstance(r, str), "containsPoint must not raise")
+            return verdict(r is not expect, f"membership in the view volume is {expect}")
+        t = unjson(rep["target"])
+        target = R.target(rep.get("tkind", "vector"), t)
+        print("target:", [float(x) for x in t], "occluders:", len(occ))
+        if kind == "point":
+            if rep.get("before"):
+                before = [quats(o) for o in unjson(rep["before"])]
+                print(f"canSee(target, {len(before)} occluders) asked first on the same viewer ->",
+                      R.can_see(viewer, target, [R.box(o) for o in before]))
+            r = R.can_see(viewer, target, [R.box(o) for o in occ])
+            print(f"canSee(target, {len(occ)} occluders) ->", r)
+            if expect == "no-crash":
+                return verdict(isinstance(r, str), "canSee must not raise")
+            if expect is None:
+                return verdict(False, "no exact expectation recorded for this input")
+            return verdict(r is not expect, f"the reference predicate (view volume and line of sight, exact) says {expect}")
+        boxes = [R.box(o) for o in occ]
+        if kind == "monotone":
+            k = rep["drop"]
+            sub = [b for i, b in enumerate(boxes) if i != k] if k < len(boxes) else boxes[: len(boxes) // 2]
+            more, less = R.can_see(viewer, R.vec(t), boxes), R.can_see(viewer, R.vec(t), sub)
+            print("canSee with all occluders ->", more, "; with a subset ->", less)
+            return verdict(more is True and less is False, "removing an occluder must not hide a visible point")
+        if kind == "rigid":
+            v2, t2, occ2 = move_scene(v, t, occ, tuple(int(x) for x in rep["Q"]), unjson(rep["b"]))
+            r1 = R.can_see(viewer, R.vec(t), boxes)
+            r2 = R.can_see(R.viewer(v2), R.vec(t2), [R.box(o) for o in occ2])
+            print("canSee ->", r1, "; after the common rigid motion ->", r2)
+            return verdict(r1 != r2, "a common rigid motion of viewer, target and occluders must not change the answer")
+    elif kind in ("point2d", "object2d"):
+        v = unjson(rep["viewer"])
+        viewer = R.viewer2d(v)
+        print("2D viewer:", viewer_name(v) + "2D", "position", [float(x) for x in v["p"]], "heading", heading_of(v["th"]),
+              "cameraOffset", [float(x) for x in v["off"]], "viewAngle", angle_of(v["t0"]), "visibleDistance", float(v["D"]))
+        try:
+            if kind == "point2d":
+                t = unjson(rep["target"])
+                occ = unjson(rep.get("occluders", []))
+                r = bool(viewer.canSee(R.target2d(rep.get("tkind", "vector"), t),
+                                       occludingObjects=tuple(R.box2d(b, occluding=True) for b in occ)))
+                print(f"canSee({[float(x) for x in t]}, {len(occ)} occluders) ->", r)
+            else:
+                tg = unjson(rep["target"])
+                r = bool(viewer.canSee(R.box2d(tg)))
+                print("canSee(Object2D", jsonable(tg), ") ->", r)
+        except Exception as e:
+            r = "crash:" + type(e).__name__
+            print("raised", type(e).__name__, e)
+        if expect == "no-crash":
+            return verdict(isinstance(r, str), "canSee must not raise")
+        if expect is None:
+            return verdict(False, "no exact expectation recorded for this input")
+        return verdict(r is not expect, f"the property demands {expect}")
     elif kind == "program":
         import scenic
         from scenic.core.distributions import RejectionException
         print(rep["program"])
-        sc = scenic.scenarioFromString(rep["program"])
         try:
+            sc = scenic.scenarioFromString(rep["program"])
             sc.generate(maxIterations=1)
-            print("-> accepted")
+            r = True
         except RejectionException:
-            print("-> rejected")
-    else:
-        print(json.dumps(rep, indent=1)[:3000])
+            r = False
+        except Exception as e:
+            r = "crash:" + type(e).__name__
+        print("->", "accepted" if r is True else "rejected" if r is False else r)
+        if expect == "no-crash":
+            return verdict(isinstance(r, str), "scene generation must not raise")
+        return verdict(r is not expect, f"the visibility fixed by construction demands accepted = {expect}")
+    print(json.dumps(rep, indent=1)[:3000])
     return 0
